@@ -115,7 +115,7 @@ impl HistCfg
         {
             "C02" =>
             {
-                c.weights[W_REVERT_LEAF] = 12; c.weights[W_BUILD_AGAIN] = 8; c.weights[W_CLEAN_ALL] = 5; c.weights[W_REVERT_RULES] = 4;
+                c.weights[W_REVERT_LEAF] = 12; c.weights[W_BUILD_AGAIN] = 8; c.weights[W_CLEAN_ALL] = 5; c.weights[W_REVERT_RULES] = 4; c.weights[W_RERENDER] = 4;
                 c.motif_pct = 40;
             },
             "C04" | "C05" =>
@@ -716,6 +716,7 @@ pub fn judge(run : &mut HistRun, obs : &Obs, judge : &mut Judge) -> Vec<Violatio
     // C03 hand-off (serial schedule here)
     let (v, _) = world::m_handoff(obs);
     all.extend(v);
+    all.extend(world::m_stable(obs).0);
 
     all
 }
